@@ -713,6 +713,8 @@ class Repo:
                 continue        # renamed in place
             if len(now) < len(was):
                 continue        # a parameter was REMOVED: not a re-arrangement of the same interface - judged as written
+            if all(x == y or (x not in was and y not in now) for x, y in zip(now[:len(was)], was)):
+                continue        # parameters were only APPENDED: the positions the rules read are unchanged
             out[q] = (was, now)
         return out
 
